@@ -1,0 +1,7 @@
+//go:build !verif
+// +build !verif
+
+package vm
+
+// verifC11Step is the no-op twin of the verification observer (see verif_c11_step.go).
+func verifC11Step(in *EVMInterpreter, contract *Contract, pc uint64, stack *Stack, mem *Memory) {}
